@@ -118,6 +118,12 @@ Theorem C17_repo_timeout_repaired : send_timeout_panics = false.
 Proof. exact repo_send_timeout_repaired. Qed.
 Print Assumptions C17_repo_timeout_repaired.
 
+(* The single-writer premise of the queue model holds of /repo: the writer goroutine of a destination is started only
+   through a sync.Once (syntactic; the "concurrent first send" scenario of the harness attacks it dynamically). *)
+Theorem C17_repo_single_writer : single_writer_once_guarded = true.
+Proof. exact repo_single_writer. Qed.
+Print Assumptions C17_repo_single_writer.
+
 (* The pinned upstream code panicked in the caller of Send when a queue stayed full for the timeout (fix: 3527aa1). *)
 Theorem C17_no_panic_tree_refuted :
   snd (run (cfg_ex false) q_init [QEnq 1 10; QEnq 1 11; QEnq 1 12]) = [Ok RAccepted; Ok RAccepted; Panic] /\
